@@ -7,7 +7,7 @@
     that the heaps keep their contents — nothing about [<], alpha or which of two equal
     distances a heap pops first. *)
 From GV Require Export Vec.Hnsw Vec.Brute Vec.Kernel Vec.Quant Vec.Quant2 Vec.Inst Vec.Wrap Vec.SmallSort.
-From GV Require Import Vec.Proofs Vec.ProofsKernel Vec.ProofsQuant Vec.ProofsWrap Vec.ProofsJoin Vec.ProofsHeap Vec.ProofsQuant2.
+From GV Require Import Vec.Proofs Vec.ProofsKernel Vec.ProofsQuant Vec.ProofsWrap Vec.ProofsJoin Vec.ProofsJoin2 Vec.ProofsHeap Vec.ProofsQuant2.
 From Coq Require Import ZArith List Bool Permutation Sorted QArith.
 Import ListNotations.
 Open Scope Z_scope.
@@ -134,19 +134,11 @@ Theorem cos_parts_lanes : forall W a b, cos_parts_l W a b = cos_parts a b.
 Proof. exact cos_parts_lanes_l. Qed.
 Print Assumptions cos_parts_lanes.
 
-(** ---- exact search with the comparator of mod.rs: partial_cmp(..).unwrap_or(Equal) ----
-    distances-or-NaN ([None]); at most 20 vectors (std's insertion sort, transcribed).
-    HEAD violates the property when a distance is NaN (finding C18-K2). *)
-Theorem brute_nan_refuted : exists (xs : list (Z * option Z)) k i d j e,
-  In (i, Some d) (brute_small lt_pc xs k) /\ In (j, Some e) xs /\
-  ~ In j (map fst (brute_small lt_pc xs k)) /\ e < d.
-Proof. exact brute_nan_refuted_l. Qed.
-Print Assumptions brute_nan_refuted.
-
-Theorem brute_nan_free : forall xs k, has_nan xs = false -> brute_small lt_pc xs k = brute_small lt_of xs k.
-Proof. exact brute_nan_free_l. Qed.
-Print Assumptions brute_nan_free.
-
+(** ---- exact search with the comparator of mod.rs ----
+    distances-or-NaN ([None]); at most 20 vectors (std's insertion sort, transcribed).  Since c04d862
+    the comparator is [cmp_distance] (NaN last, a total order: [lt_of]): the k smallest, sorted, ties in
+    input order, for EVERY input.  Before it was partial_cmp(..).unwrap_or(Equal) ([lt_pc]), which fails
+    as soon as a distance is NaN (finding C18-K2, repaired) and agrees with the repaired code otherwise. *)
 Theorem brute_small_exact : forall (xs : list (Z * option Z)) k,
   let r := brute_small lt_of xs k in
   zlen r = Z.min (Z.max 0 k) (zlen xs) /\
@@ -158,35 +150,43 @@ Theorem brute_small_exact : forall (xs : list (Z * option Z)) k,
 Proof. exact brute_small_exact_l. Qed.
 Print Assumptions brute_small_exact.
 
+Theorem brute_nan_pre_refuted : exists (xs : list (Z * option Z)) k i d j e,
+  In (i, Some d) (brute_small lt_pc xs k) /\ In (j, Some e) xs /\
+  ~ In j (map fst (brute_small lt_pc xs k)) /\ e < d.
+Proof. exact brute_nan_pre_refuted_l. Qed.
+Print Assumptions brute_nan_pre_refuted.
+
+Theorem brute_nan_free : forall xs k, has_nan xs = false -> brute_small lt_pc xs k = brute_small lt_of xs k.
+Proof. exact brute_nan_free_l. Qed.
+Print Assumptions brute_nan_free.
+
 (** ---- QuantizedHnswIndex::search_with_ef (trained quantiser) ----
-    HEAD panics when k * rescore_factor overflows a usize (finding C18-K3). *)
-Theorem qsearch_overflow_refuted : exists (k : Z) (mults : list Z), 0 <= k <= usize_max /\
-  forall V D (X : ext V D) d2 s q ef pre, qsearch X d2 s q k ef mults true pre = QPanic.
-Proof. exact qsearch_overflow_refuted_l. Qed.
-Print Assumptions qsearch_overflow_refuted.
-
-Theorem qsearch_panic_iff : forall V D (X : ext V D) d2 (s : state V) q k ef mults resc pre,
-  qsearch X d2 s q k ef mults resc pre = QPanic <-> resc = true /\ num_candidates k mults = None.
-Proof. exact (fun V D X d2 => qsearch_panic_iff_l X d2). Qed.
-Print Assumptions qsearch_panic_iff.
-
-Theorem qsearch_sound : forall V D (X : ext V D) d2, ext_ok X -> forall (s : state V) q k ef mults pre r,
-  pre_ok pre -> qsearch X d2 s q k ef mults true pre = QOk r ->
+    Since dc6fd9d the candidate count is k.saturating_mul(rescore_factor): a result for every k.
+    Before, k * rescore_factor panicked on overflow (finding C18-K3, repaired) and otherwise
+    returned what the repaired code returns. *)
+Theorem qsearch_sound : forall V D (X : ext V D) d2, ext_ok X -> forall (s : state V) q k ef mults pre,
+  pre_ok pre ->
+  let r := qsearch X d2 s q k ef mults true pre in
   zlen r <= Z.max 0 k /\ NoDup (map fst r) /\
   StronglySorted (fun a b => x_leb X (snd a) (snd b) = true) r /\
   forall i d, In (i, d) r -> exists n, lookup (nodes s) i = Some n /\ d = d2 q (fst n).
 Proof. exact (fun V D X d2 HX => qsearch_sound_l X d2 HX). Qed.
 Print Assumptions qsearch_sound.
 
-Theorem qsearch_count : forall V D (X : ext V D) d2, ext_ok X -> forall (s : state V) q k ef mults nc,
-  links_closed s -> num_candidates k mults = Some nc ->
-  exists r, qsearch X d2 s q k ef mults true pre_none = QOk r /\
-            zlen r = Z.min (Z.max 0 k) (zlen (xsearch X s q nc ef)).
+Theorem qsearch_count : forall V D (X : ext V D) d2, ext_ok X -> forall (s : state V) q k ef mults,
+  links_closed s ->
+  zlen (qsearch X d2 s q k ef mults true pre_none)
+  = Z.min (Z.max 0 k) (zlen (xsearch X s q (num_candidates k mults) ef)).
 Proof. exact (fun V D X d2 HX => qsearch_count_l X d2 HX). Qed.
 Print Assumptions qsearch_count.
 
+Theorem num_candidates_ge : forall mults k, 0 <= k <= usize_max -> Forall (fun m => 1 <= m) mults ->
+  k <= num_candidates k mults <= usize_max.
+Proof. exact num_candidates_ge_l. Qed.
+Print Assumptions num_candidates_ge.
+
 Theorem qsearch_plain : forall V D (X : ext V D) d2, ext_ok X -> forall (s : state V) q k ef mults,
-  qsearch X d2 s q k ef mults false pre_none = QOk (xsearch X s q k ef).
+  qsearch X d2 s q k ef mults false pre_none = xsearch X s q k ef.
 Proof. exact (fun V D X d2 HX => qsearch_plain_l X d2 HX). Qed.
 Print Assumptions qsearch_plain.
 
@@ -195,6 +195,21 @@ Theorem pre_stages_ok : forall D (leb : D -> D -> bool) key k,
 Proof. intros; split; [apply pre_none_ok|split; [apply pre_rank_ok|apply pre_rank_trunc_ok]]. Qed.
 Print Assumptions pre_stages_ok.
 
+Theorem qsearch_overflow_pre_refuted : exists (k : Z) (mults : list Z), 0 <= k <= usize_max /\
+  forall V D (X : ext V D) d2 s q ef pre, qsearch_pre X d2 s q k ef mults true pre = QPanic.
+Proof. exact qsearch_overflow_pre_refuted_l. Qed.
+Print Assumptions qsearch_overflow_pre_refuted.
+
+Theorem qsearch_pre_panic_iff : forall V D (X : ext V D) d2 (s : state V) q k ef mults resc pre,
+  qsearch_pre X d2 s q k ef mults resc pre = QPanic <-> resc = true /\ num_candidates_pre k mults = None.
+Proof. exact (fun V D X d2 => qsearch_pre_panic_iff_l X d2). Qed.
+Print Assumptions qsearch_pre_panic_iff.
+
+Theorem qsearch_pre_agrees : forall V D (X : ext V D) d2 (s : state V) q k ef mults resc pre,
+  qsearch_pre X d2 s q k ef mults resc pre <> QPanic ->
+  qsearch_pre X d2 s q k ef mults resc pre = QOk (qsearch X d2 s q k ef mults resc pre).
+Proof. exact (fun V D X d2 => qsearch_pre_agrees_l X d2). Qed.
+Print Assumptions qsearch_pre_agrees.
 
 (** ---- quantised distances stay within their error of the exact ones ----
     scalar: for stored vectors inside the trained range (everything scaled by 255, squares for roots)
@@ -234,20 +249,30 @@ Theorem scan_chunks_ok : forall (A : Type) (cap : nat) (l : list A), (1 <= cap)%
 Proof. exact scan_chunks_ok_l. Qed.
 Print Assumptions scan_chunks_ok.
 
-(** HEAD: a chunk that fills up exactly at the end of a left row's matches makes next() search
-    the same row again, for ever (finding C18-K4) *)
-Theorem join_refuted : exists (cap : nat) (rows : list (Z * list Z)),
-  (1 <= cap)%nat /\ k_join_boundary cap rows = true /\
-  forall fuel, exists ch, jrun fuel cap (jinit rows) = (repeat ch fuel, false).
-Proof. exact join_refuted_l. Qed.
-Print Assumptions join_refuted.
-
+(** Since 5466afe the join is the row-by-row search for EVERY input: the chunks concatenate to
+    [join_spec], every chunk has between 1 and chunk_capacity rows, the operator terminates. *)
 Theorem join_is_row_by_row : forall (L R : Type) (cap : nat) (rows : list (L * list R)),
+  (1 <= cap)%nat ->
+  exists fuel chs, jrun fuel cap (jinit rows) false = (chs, true) /\ concat chs = join_spec rows /\
+                   Forall (fun ch => (1 <= length ch <= cap)%nat) chs.
+Proof. exact join_is_row_by_row_l2. Qed.
+Print Assumptions join_is_row_by_row.
+
+(** before 5466afe (finding C18-K4, repaired): a chunk that filled up exactly at the end of a left
+    row's matches made next() search the same row again, for ever; outside that class the old
+    loop was correct *)
+Theorem join_pre_refuted : exists (cap : nat) (rows : list (Z * list Z)),
+  (1 <= cap)%nat /\ k_join_boundary cap rows = true /\
+  forall fuel, exists ch, jrun_pre fuel cap (jinit rows) = (repeat ch fuel, false).
+Proof. exact join_refuted_l. Qed.
+Print Assumptions join_pre_refuted.
+
+Theorem join_pre_row_by_row : forall (L R : Type) (cap : nat) (rows : list (L * list R)),
   (1 <= cap)%nat -> k_join_boundary cap rows = false ->
-  exists fuel chs, jrun fuel cap (jinit rows) = (chs, true) /\ concat chs = join_spec rows /\
+  exists fuel chs, jrun_pre fuel cap (jinit rows) = (chs, true) /\ concat chs = join_spec rows /\
                    Forall (fun ch => (1 <= length ch <= cap)%nat) chs.
 Proof. exact join_is_row_by_row_l. Qed.
-Print Assumptions join_is_row_by_row.
+Print Assumptions join_pre_row_by_row.
 
 (** non-vacuity: an instance satisfying [ext_ok]; a history whose state satisfies the hypotheses *)
 Example nv_ext_ok : ext_ok (zext_list Euclidean).
@@ -272,12 +297,12 @@ Proof.
 Qed.
 Example nv_quant : sq_code 10 (255 * 4) 523 = 128 /\ sq_deq255 (255 * 4) 128 = 255 * 512.
 Proof. vm_compute. split; reflexivity. Qed.
-Example nv_join : k_join_boundary 3 [(0, [10; 11]); (1, [20; 21])] = false /\
-  jrun 3 3 (jinit [(0, [10; 11]); (1, [20; 21])]) = ([[(0, 10); (0, 11); (1, 20)]; [(1, 21)]], true).
+Example nv_join : jrun 3 2 (jinit [(0, [10; 11]); (1, [20; 21])]) false = ([[(0, 10); (0, 11)]; [(1, 20); (1, 21)]], true)
+  /\ k_join_boundary 2 [(0, [10; 11]); (1, [20; 21])] = true.
 Proof. vm_compute. split; reflexivity. Qed.
 Example nv_qsearch : exists r, qsearch (zext Euclidean) (zdist Euclidean)
-    (xrun (zext Euclidean) (mk_config 16 32 128) [OpInsert 1 [0] 0; OpInsert 2 [1] 0; OpInsert 3 [2] 0]) [0] 2 50 [2] true pre_none = QOk r
-    /\ map fst r = [1; 2].
+    (xrun (zext Euclidean) (mk_config 16 32 128) [OpInsert 1 [0] 0; OpInsert 2 [1] 0; OpInsert 3 [2] 0]) [0] usize_max 50 [2] true pre_none = r
+    /\ map fst r = [1; 2; 3].
 Proof. eexists. vm_compute. split; reflexivity. Qed.
 Example nv_nan_free : has_nan [(1, Some 3); (2, Some 1)] = false /\ brute_small lt_pc [(1, Some 3); (2, Some 1)] 1 = [(2, Some 1)].
 Proof. vm_compute. split; reflexivity. Qed.
